@@ -367,7 +367,16 @@ func rvAddressableReadonly(v reflect.Value) reflect.Value {
 	// so we just set the flagAddr bit on the flag (and do not set the flagIndir).
 
 	uv := (*unsafeReflectValue)(unsafe.Pointer(&v))
-	uv.flag = uv.flag | unsafeFlagAddr // | unsafeFlagIndir
+	if uv.flag&unsafeFlagIndir == 0 {
+		// a pointer-shaped value (map, chan, func, pointer, or a struct / array made of one of them)
+		// held directly (passed by value, or taken out of an interface) is stored IN v.ptr, not behind it.
+		// Give it its own storage, so that taking its address yields a pointer to the value
+		// (and not the value itself reinterpreted as its address).
+		p := uv.ptr
+		uv.ptr = unsafe.Pointer(&p)
+		uv.flag = uv.flag | unsafeFlagIndir
+	}
+	uv.flag = uv.flag | unsafeFlagAddr
 
 	return v
 }
